@@ -7,7 +7,7 @@
 use std::{
     collections::HashMap,
     hash::{BuildHasher, Hash},
-    time::{Duration, Instant},
+    time::{Duration, Instant, SystemTime},
 };
 
 #[cfg(feature = "serde1")]
@@ -17,6 +17,15 @@ pub mod serde;
 /// The longest timeout tracked for a request; longer deadlines are clamped to it, since timers
 /// cannot be set arbitrarily far in the future.
 pub(crate) const MAX_TIMEOUT: Duration = Duration::from_secs(60 * 60 * 24 * 365);
+
+/// Formats a deadline as an RFC 3339 timestamp, saturating at the last representable second.
+pub(crate) fn format_deadline(deadline: &Instant) -> humantime::Rfc3339Timestamp {
+    let max = SystemTime::UNIX_EPOCH + Duration::from_secs(253_402_300_799);
+    let deadline = SystemTime::now()
+        .checked_add(deadline.time_until())
+        .map_or(max, |deadline| deadline.min(max));
+    humantime::format_rfc3339(deadline)
+}
 
 /// Extension trait for [Instants](Instant) in the future, i.e. deadlines.
 pub trait TimeUntil {
